@@ -757,13 +757,16 @@ def run_mc(module, cfg, workers=None, timeout=3000):
     return mc
 
 
-def run_trace(module, path, expect):
-    """one trace-validation run; a run that TLC did not complete (resource trouble on a shared machine) is retried once"""
+def run_trace(module, path, expect, soft=False):
+    """one trace-validation run; a run that TLC did not complete (resource trouble on a shared machine) is retried once.
+    soft: return None instead of failing when TLC reports an EVALUATION error (the caller isolates the observation)"""
     tr = None
     for attempt in (1, 2):
         tr = tlc.run(module, module, workers=WORKERS, env={"TRACE_FILE": str(path)}, timeout=2400, heap=HEAP)
         if not tr.errors and tr.distinct == expect:
             return tr
+    if soft and tr.errors and any("evaluating" in e or "Attempted" in e for e in tr.errors):
+        return None
     i = tr.stdout.find("Error")
     machinery_failure(PID, f"trace validation failed twice (distinct={tr.distinct}, expected {expect}, errors={tr.errors[:5]}):\n"
                       + (tr.stdout[max(0, i - 200):i + 2500] if i >= 0 else tr.stdout[-3000:]))
@@ -905,7 +908,40 @@ def main(argv):
                                               "htried": ob["htried"], "hin": ob["hin"], "hout": ob["hist"],
                                               "sdtried": ob["sdtried"], "sdok": ob["sdok"], "sd": ob["sd"], "sdre": ob["sdre"]}
                                              for c, ob, _o in part], "links": lc if cidx == 0 else []}))
-            tr = run_trace("Trace_LinksParse", f, len(part) + (len(lc) if cidx == 0 else 0))
+            tr = run_trace("Trace_LinksParse", f, len(part) + (len(lc) if cidx == 0 else 0), soft=True)
+            if tr is None:
+                # TLC could not EVALUATE the spec on some observation of this chunk (an evaluation error, e.g. a comparison of
+                # values of two kinds that the encoding of a rare random case produces): isolate those observations by
+                # bisection, validate everything else, and report them as not validated (never as a verdict)
+                f.unlink()
+                stack = [(0, len(part), cidx == 0)]
+                while stack:
+                    lo, hi, with_links = stack.pop()
+                    sub = json.loads(json.dumps({"obs": [], "links": lc if with_links else []}))
+                    sub["obs"] = [{"shape": c["shape"], "items": c["items"], "out": ob["out"], "dumped": ob["dumped"], "dump": ob["dump"], "re": ob["re"],
+                                   "ptried": ob["ptried"] and ob["out"]["ok"], "pok": ob["pok"], "printed": ob["printed"],
+                                   "tried": ob["tried_save"], "saved": ob["saved"], "smain": ob["smain"], "ssub": ob["ssub"], "ssingle": ob["ssingle"], "sre": ob["sre"],
+                                   "htried": ob["htried"], "hin": ob["hin"], "hout": ob["hist"],
+                                   "sdtried": ob["sdtried"], "sdok": ob["sdok"], "sd": ob["sd"], "sdre": ob["sdre"]} for c, ob, _o in part[lo:hi]]
+                    g = tmp / f"trace{cidx}_{lo}_{hi}.json"
+                    g.write_text(json.dumps(sub))
+                    t2 = run_trace("Trace_LinksParse", g, (hi - lo) + (len(lc) if with_links else 0), soft=True)
+                    g.unlink()
+                    if t2 is None:
+                        if hi - lo <= 1:
+                            rep.extra.setdefault("observations_tlc_could_not_evaluate", []).append({"shape": part[lo][0]["shape"], "items": part[lo][0]["items"]} if hi > lo else {"links": True})
+                            if len(rep.extra["observations_tlc_could_not_evaluate"]) > 20:
+                                machinery_failure(PID, "TLC could not evaluate Trace_LinksParse on more than 20 observations")
+                            continue
+                        mid = (lo + hi) // 2
+                        stack.append((lo, mid, with_links))
+                        stack.append((mid, hi, False))
+                        continue
+                    rep.add_tlc(f"Trace_LinksParse[{cidx}:{lo}-{hi}]", t2)
+                    for p in t2.printed:
+                        if isinstance(p, list) and p and p[0] == "R":
+                            rejects.append((p[1], p[2] + ((cidx * CH + lo) if p[1] == "parse" else 0), p[3]))
+                continue
             rep.add_tlc(f"Trace_LinksParse[{cidx}]", tr)
             for p in tr.printed:
                 if isinstance(p, list) and p and p[0] == "R":
